@@ -936,7 +936,12 @@ func keyRT(o hx.Op) string {
 		if pk.KeyIdString() != fmt.Sprintf("%016X", pk.KeyId) || pk.KeyIdShortString() != fmt.Sprintf("%08X", pk.KeyId&0xffffffff) || !pk.CanSign() {
 			return "rt=bad-accessor"
 		}
-		if bl, err := pk.BitLength(); err != nil || bl == 0 {
+		// BitLength knows RSA, DSA and ElGamal only: for an ECDSA key it returns InvalidArgumentError (by design of the switch)
+		if bl, err := pk.BitLength(); pk.PubKeyAlgo == packet.PubKeyAlgoECDSA {
+			if _, ok := err.(pgperr.InvalidArgumentError); !ok {
+				return "rt=bad-bitlength"
+			}
+		} else if err != nil || bl == 0 {
 			return "rt=bad-bitlength"
 		}
 		if len(el.KeysById(pk.KeyId)) == 0 || len(el.KeysByIdUsage(pk.KeyId, packet.KeyFlagSign)) == 0 || len(el.DecryptionKeys()) != 0 {
@@ -963,7 +968,12 @@ func keyRT(o hx.Op) string {
 		for n := range e.Identities {
 			id = n
 		}
-		if err := e.SignIdentity(id, rsaEnt, nil); err != nil {
+		// a third-party certification (signed by the key itself it would be read back as the self-signature)
+		signer := rsaEnt
+		if o.Str("key") == "rsa" {
+			signer = dsaEnt
+		}
+		if err := e.SignIdentity(id, signer, nil); err != nil {
 			return "err:signidentity"
 		}
 		if err := e.Serialize(&buf); err != nil {
@@ -1339,9 +1349,79 @@ func genTamper1(g *hx.Gen) {
 	}
 }
 
+// deterministic sweeps over the small product tables, so that every pair occurs in every run
+func sweep(g *hx.Gen) {
+	r := g.R
+	for _, c := range []int{2, 3, 7, 8, 9} {
+		bs := 16
+		if c < 4 {
+			bs = 8
+		}
+		for comp := 0; comp < 3; comp++ {
+			pair(g, fmt.Sprintf("cipher%d", c), fmt.Sprintf("comp%d", comp))
+			n := r.PickInt(0, 5, 600)
+			g.Emit("enc mode=sym rcpt=- nrcpt=0 signer=0 signed=0 cipher=%d bs=%d comp=%d hash=8 bin=1 name=66 namelen=1 ch=%s n=%d seed=%d", c, bs, comp, hx.JoinInts(chunking(r, n)), n, r.U64()>>1)
+		}
+		for rs := 0; rs < 2; rs++ {
+			for _, n := range []int{0, bs - 1, bs, bs + 1, 100} {
+				pair(g, fmt.Sprintf("ocfb.cipher%d", c), fmt.Sprintf("resync%d", rs))
+				g.Emit("ocfb cipher=%d resync=%d n=%d ch=%s seed=%d", c, rs, n, hx.JoinInts(chunking(r, n)), r.U64()>>1)
+			}
+		}
+	}
+	for _, pk := range []int{1, 17, 19} {
+		for _, hid := range []int{2, 8, 9, 10, 11} {
+			text, arm := r.Intn(2), r.Intn(2)
+			pair(g, fmt.Sprintf("dsig.signer%d", pk), fmt.Sprintf("hash%d", hid))
+			pair(g, fmt.Sprintf("dsig.text%d", text), fmt.Sprintf("armor%d", arm))
+			g.Emit("dsig text=%d armor=%d pk=%d hash=%d ct=%d iss=%d msg=%s", text, arm, pk, hid, r.Range(1, 1<<31-1), entByAlgo(pk).PrivateKey.KeyId, hx.Hex(textMsg(r)))
+			// the same signer × hash inside Encrypt and Sign
+			pair(g, fmt.Sprintf("signer%d", pk), fmt.Sprintf("hash%d", hid))
+			g.Emit("enc mode=%s rcpt=%s nrcpt=%d signer=%d signed=1 cipher=7 bs=16 comp=0 hash=%d bin=0 name=- namelen=0 ch=- n=20 seed=%d",
+				[]string{"sign", "pk"}[hid%2], []string{"-", "rsa"}[hid%2], hid%2, pk, hid, r.U64()>>1)
+		}
+	}
+	for _, rc := range [][]string{{"rsa"}, {"elg"}, {"rsa", "elg"}, {"elg", "rsa"}} {
+		for _, sg := range []int{0, 1, 17, 19} {
+			for _, c := range []int{3, 7, 9} {
+				if (sg+c)%3 != 0 && sg != 0 {
+					continue
+				}
+				bs, s := 16, 0
+				if c == 3 {
+					bs = 8
+				}
+				if sg != 0 {
+					s = 1
+				}
+				pair(g, "rcpt="+strings.Join(rc, ","), fmt.Sprintf("signer%d", sg))
+				pair(g, "rcpt="+strings.Join(rc, ","), fmt.Sprintf("cipher%d", c))
+				g.Emit("enc mode=pk rcpt=%s nrcpt=%d signer=%d signed=%d cipher=%d bs=%d comp=0 hash=8 bin=1 name=- namelen=0 ch=- n=33 seed=%d", strings.Join(rc, ","), len(rc), sg, s, c, bs, r.U64()>>1)
+			}
+		}
+	}
+	for _, key := range []string{"rsa", "dsa", "ec", "new"} {
+		for _, kind := range []string{"ser", "serpriv", "signid"} {
+			if key == "ec" && kind != "ser" {
+				continue
+			}
+			g.Stat("keyrt." + kind + "." + key)
+			g.Emit("keyrt key=%s kind=%s comment=c", key, kind)
+		}
+	}
+	for c := 0; c < 256; c += 1 { // whole tables
+		if c < 24 || c > 250 {
+			g.Emit("ksz c=%d", c)
+			g.Emit("pka a=%d", c)
+		}
+	}
+}
+
 func gen(g *hx.Gen) {
 	loadKeys()
-	n := g.Count(2600, 40000)
+	sweep(g)
+	sweep(g)
+	n := g.Count(2200, 40000)
 	r := g.R
 	for i := 0; i < n; i++ {
 		switch k := r.Intn(40); {
